@@ -834,9 +834,12 @@ func (e *stopExec) judge(res *stopRun) string {
 			return true
 		}
 		if _, inCache := res.done[name]; !inCache && sc.delete {
+			// (a positive verdict stands for the delivery: the receiver answers "passed" from the moment the file is
+			// logged, and moves it into the final directory afterwards, on its own schedule; on a loaded machine the
+			// listing taken when Start returns can precede that move)
 			_, atSource := res.source[name]
 			_, delivered := res.final[name]
-			return !atSource && delivered
+			return !atSource && (delivered || res.confirmed[name])
 		}
 		return false
 	}
@@ -873,6 +876,16 @@ func (e *stopExec) judge(res *stopRun) string {
 			for _, ev := range res.events {
 				if strings.HasPrefix(ev, "sent "+esc(f.name)+" ") {
 					sent = true
+				}
+			}
+			if os.Getenv("VERIF_STOP_DEBUG") != "" {
+				_, atSource := res.source[f.name]
+				_, delivered := res.final[f.name]
+				d, inCache := res.done[f.name]
+				fmt.Fprintf(os.Stderr, "---- undrained %s %s: inCache=%v done=%v atSource=%v delivered=%v\n", where, f.name, inCache, d, atSource, delivered)
+				fmt.Fprintf(os.Stderr, "     final=%v source=%v done=%v\n", sortedNames(res.final), sortedNames(res.source), res.done)
+				for _, ev := range res.events {
+					fmt.Fprintln(os.Stderr, "    ", ev)
 				}
 			}
 			e.failures = append(e.failures, fmt.Sprintf("undrained: %s: %s was found by a completed scan, is unchanged and had no negative verdict, but is not done at return (sent logged: %v, confirmed: %v)",
